@@ -165,6 +165,15 @@ def run_case(desc):
             a, fam = _array(rng)
             if np.isnan(a).all():
                 a.flat[0] = 0.0
+            if (desc["seed"] >> 17) % 5 == 0:
+                # integer-typed arrays (counts): unsigned with zeros, signed holding the minimum of their dtype
+                kind_i = (desc["seed"] >> 20) % 3
+                if kind_i == 0:
+                    a, fam = rng.randint(0, 4, size=a.shape).astype(np.uint8), "uint8"
+                elif kind_i == 1:
+                    a, fam = rng.choice(np.array([-128, -1, 0, 5, 127], dtype=np.int8), size=a.shape), "int8"
+                else:
+                    a, fam = rng.choice(np.array([np.iinfo(np.int64).min, -3, 0, 7], dtype=np.int64), size=a.shape), "int64"
             axes = [None] + list(range(a.ndim))
             axis = axes[rng.randint(len(axes))]
             if axis is not None and np.isnan(a).all(axis=axis).any():
